@@ -14,6 +14,9 @@ ALL_CELLS = [("g++", "c++11"), ("g++", "c++14"), ("g++", "c++17"), ("g++", "c++2
              ("clang++", "c++11"), ("clang++", "c++14"), ("clang++", "c++17"), ("clang++", "c++20"),
              ("clang++", "c++2b")]
 QUICK_CELLS = [("g++", "c++17"), ("clang++", "c++20")]
+# one cell per (compiler front end x codec path of sbepp.hpp): the pre-C++20 path selects a byteswap intrinsic per compiler
+# (clang / gcc / msvc branches), the C++20 path is bit_cast + reverse; small schemas are run on all four even in the quick tier
+CODEC_CELLS = [("g++", "c++17"), ("clang++", "c++14"), ("g++", "c++20"), ("clang++", "c++20")]
 FOUR_CELLS = [("g++", "c++11"), ("g++", "c++20"), ("clang++", "c++17"), ("clang++", "c++2b")]
 
 
